@@ -1,7 +1,8 @@
 CONSTANTS
-  G = 3
+  G = 2
   Ws = {1}
   D <- DQuick
+  Als = {0, 1, 2}
   HasFill = TRUE
 SPECIFICATION Spec
 INVARIANTS OutlineIsThreeLines NoRowLost
